@@ -1,6 +1,6 @@
 (* C32/Proofs.v — every run of the model (every schedule of socket reader, stream creation and consumer)
    yields a prefix of what C32/Spec.v demands, and all of it once everything has been read and polled —
-   for bus histories, outside the two known classes. *)
+   for bus histories (the code as repaired by 902c9069 and 0bffda5d: no known class is left). *)
 From Coq Require Import List NArith Bool Lia.
 Import ListNotations.
 From ZV Require Import Base.Bytes C32.Model C32.Spec C32.Facts.
@@ -271,25 +271,6 @@ Proof.
     destruct last as [o|]; [|exact I]. apply opt_eqb_eq. exact H.
 Qed.
 
-(* the flag of the release class never goes back *)
-Lemma lost_mono : forall cf w a, w_lost w = true -> w_lost (step cf w a) = true.
-  Proof.
-    intros cf w a H. destruct a; cbn [step].
-    - unfold tick. destruct (w_todo w) as [|[s|p] rest]; [exact H|exact H|].
-      destruct (w_reps w <? ncalls w); exact H.
-    - unfold client_step;
-        repeat match goal with
-               | |- context [match ?x with _ => _ end] => destruct x
-               | |- context [let '(_, _) := ?x in _] => destruct x
-               end;
-        cbn [w_lost call set_ph]; try exact H; rewrite H; reflexivity.
-    - unfold consumer_poll;
-        repeat match goal with
-               | |- context [match ?x with _ => _ end] => destruct x
-               end;
-        cbn [w_lost call set_ph]; exact H.
-  Qed.
-
 (* ---------------------------------------------------------------- the invariant *)
 Definition creation (d : dest) : N := match d with DWell => 3 | DUnique _ => 1 end.
 
@@ -297,7 +278,7 @@ Section Run.
   Variable cf : cfg.
   Variable h : list wmsg.
   Hypothesis Hst : stamped h = true.
-  Hypothesis Hfg : forgeable cf h = false.
+  Hypothesis Hdc : existsb (driver_claim_off_path cf) h = false.
   Hypothesis Hown : c_dest cf = DWell -> owners_ok_from 0 h = true.
   Hypothesis Hcon : c_dest cf = DWell -> consistent_from 0 None h = true.
 
@@ -362,19 +343,19 @@ Section Run.
       apply andb_true_iff in Ho. tauto.
   Qed.
 
-  (* every message of the history is stamped and cannot be taken for an ownership claim by the signal rule *)
+  (* every message of the history is stamped, and a wanted signal of NameOwnerChanged shape is not the driver's *)
   Lemma in_hist : forall todo seq reps nc pre s rest,
     Base todo seq reps nc pre -> todo = WSig s :: rest ->
-    s_sender s <> None /\ (wanted cf s = true -> is_noc s = false).
+    s_sender s <> None /\ (wanted cf s = true -> is_noc s = true -> opt_eqb (s_sender s) (Some DRIVER) = false).
   Proof.
     intros todo seq reps nc pre s rest B E. destruct B as [Hs _ _ _ _ _ _]. subst todo.
     assert (Hin : In (WSig s) h) by (rewrite Hs; apply in_or_app; right; left; reflexivity).
     split.
     - unfold stamped in Hst. rewrite forallb_forall in Hst. specialize (Hst _ Hin). cbn in Hst.
       destruct (s_sender s); [discriminate|discriminate].
-    - intro Hw. destruct (is_noc s) eqn:En; [|reflexivity].
-      assert (Hx : forgeable cf h = true).
-      { unfold forgeable. apply existsb_exists. exists (WSig s). split; [exact Hin|]. rewrite Hw, En. reflexivity. }
+    - intros Hw En. destruct (opt_eqb (s_sender s) (Some DRIVER)) eqn:Ed; [|reflexivity].
+      assert (Hx : existsb (driver_claim_off_path cf) h = true).
+      { apply existsb_exists. exists (WSig s). split; [exact Hin|]. cbn. rewrite Hw, En, Ed. reflexivity. }
       congruence.
   Qed.
 
@@ -452,7 +433,7 @@ Section Run.
     (c_dest cf = DWell -> not_driver (sp_owner sg) = true) ->
     (c_dest cf = DWell -> forall new, driver_noc s = Some new -> not_driver new = true) ->
     (forall u, c_dest cf = DUnique u -> sp_owner sg = Some u) ->
-    s_sender s <> None -> (wanted cf s = true -> is_noc s = false) ->
+    s_sender s <> None -> (wanted cf s = true -> is_noc s = true -> opt_eqb (s_sender s) (Some DRIVER) = false) ->
     let st' := ss_deliver (sig_rule cf) (n + 1) s st in
     ss_ok (n + 1) st' /\
     (match c_dest cf with DWell => ss_qn st' <> None | DUnique _ => ss_qn st' = None end) /\
@@ -485,7 +466,8 @@ Section Run.
       rewrite sig_rule_wanted in Es. apply andb_true_iff in Es. destruct Es as [Hw Hsu].
       specialize (Hnoc Hw).
       assert (Hf : ss_filter (sp_owner sg) s = (opt_eqb (s_sender s) (sp_owner sg), sp_owner sg)).
-      { unfold ss_filter. rewrite Hnoc. destruct (opt_eqb (s_sender s) (sp_owner sg)); reflexivity. }
+      { unfold ss_filter. destruct (opt_eqb (s_sender s) (sp_owner sg)); [reflexivity|].
+        destruct (is_noc s); [rewrite (Hnoc eq_refl)|]; reflexivity. }
       rewrite Hf. cbn [fst snd]. rewrite Hw. cbn [andb].
       assert (Hfo : from_owner sg s = opt_eqb (s_sender s) (sp_owner sg)).
       { unfold from_owner. destruct (sp_owner sg) as [o|]; [reflexivity|].
@@ -556,8 +538,7 @@ Section Run.
     w_todo w = WSig s :: rest ->
     Base (w_todo w) (w_seq w) (w_reps w) (ncalls w) pre -> PInv w pre ->
     let w' := {| w_todo := rest; w_seq := w_seq w + 1; w_reps := w_reps w; w_log := w_log w;
-                 w_ph := deliver_sig cf (w_seq w + 1) s (w_ph w); w_out := w_out w; w_start := w_start w;
-                 w_lost := w_lost w |} in
+                 w_ph := deliver_sig cf (w_seq w + 1) s (w_ph w); w_out := w_out w; w_start := w_start w |} in
     Base rest (w_seq w + 1) (w_reps w) (ncalls w) (pre ++ [WSig s]) /\ PInv w' (pre ++ [WSig s]).
   Proof.
     intros w pre s rest Et B P w'. subst w'. rewrite Et in B.
@@ -566,8 +547,7 @@ Section Run.
     destruct (in_hist _ _ _ _ _ s rest B eq_refl) as [Hsnd Hnoc].
     unfold PInv in *. cbn [w_ph w_out w_log w_seq w_reps w_start ncalls].
     change (ncalls {| w_todo := rest; w_seq := w_seq w + 1; w_reps := w_reps w; w_log := w_log w;
-                      w_ph := deliver_sig cf (w_seq w + 1) s (w_ph w); w_out := w_out w; w_start := w_start w;
-                      w_lost := w_lost w |}) with (ncalls w).
+                      w_ph := deliver_sig cf (w_seq w + 1) s (w_ph w); w_out := w_out w; w_start := w_start w |}) with (ncalls w).
     destruct (w_ph w) as [|c qr|c j qn fut|c src qn qr|st| |] eqn:Eph; cbn [deliver_sig]; try exact P.
     - (* PhOwner *)
       destruct P as (Hd & Hc & Hn & Hj & Ho & Hg & Hso & Hle & Hcase).
@@ -651,7 +631,7 @@ Section Run.
     Base (w_todo w) (w_seq w) (w_reps w) (ncalls w) pre -> PInv w pre ->
     let w' := {| w_todo := rest; w_seq := w_seq w + 1; w_reps := w_reps w + 1; w_log := w_log w;
                  w_ph := deliver_rep (w_seq w + 1) (w_reps w + 1) p (w_ph w); w_out := w_out w;
-                 w_start := w_start w; w_lost := w_lost w |} in
+                 w_start := w_start w |} in
     Base rest (w_seq w + 1) (w_reps w + 1) (ncalls w) (pre ++ [WRep p]) /\ PInv w' (pre ++ [WRep p]).
   Proof.
     intros w pre p rest Et Hlt B P w'. subst w'. rewrite Et in B.
@@ -659,7 +639,7 @@ Section Run.
     unfold PInv in *. cbn [w_ph w_out w_log w_seq w_reps w_start].
     change (ncalls {| w_todo := rest; w_seq := w_seq w + 1; w_reps := w_reps w + 1; w_log := w_log w;
                       w_ph := deliver_rep (w_seq w + 1) (w_reps w + 1) p (w_ph w); w_out := w_out w;
-                      w_start := w_start w; w_lost := w_lost w |}) with (ncalls w).
+                      w_start := w_start w |}) with (ncalls w).
     destruct (w_ph w) as [|c qr|c j qn fut|c src qn qr|st| |] eqn:Eph; cbn [deliver_rep]; try exact P.
     - destruct P as (Hd & Hc & Hn & Ho & Hq). repeat (split; [assumption|]).
       apply qrep_push_mine; [lia|exact Hq].
@@ -741,20 +721,18 @@ Section Run.
   Proof. intros. left. split; [assumption|]. split; constructor. Qed.
 
   (* the world after SignalStream::new has settled on an owner and asked for the signal rule *)
-  Definition resolved_world (w : world) (src : option N) (q : queue sigm) (lost : bool) : world :=
-    let w' := call w C_ADDMATCH (fun c' => PhAddS c' src (Some q) []) in
-    {| w_todo := w_todo w'; w_seq := w_seq w'; w_reps := w_reps w'; w_log := w_log w'; w_ph := w_ph w';
-       w_out := w_out w'; w_start := w_start w'; w_lost := w_lost w' || lost |}.
+  Definition resolved_world (w : world) (src : option N) (q : queue sigm) : world :=
+    call w C_ADDMATCH (fun c' => PhAddS c' src (Some q) []).
 
-  Lemma resolved_inv : forall w pre src q lost,
+  Lemma resolved_inv : forall w pre src q,
     Base (w_todo w) (w_seq w) (w_reps w) (ncalls w) pre -> ncalls w = 2 -> c_dest cf = DWell -> w_out w = [] ->
     not_driver src = true -> qn_good q -> sorted q -> all_le (w_seq w) q ->
     ((w_reps w = 1 /\ snd (cacc pre) = Some (nend src q)) \/
      (w_reps w = 2 /\ sp_owner (sp_run cf pre) = nend src q)) ->
-    CInv1 (resolved_world w src q lost) pre.
+    CInv1 (resolved_world w src q) pre.
   Proof.
-    intros w pre src q lost B Hn Hd Ho Hnd Hg Hso Hle Hcase.
-    assert (Hn' : ncalls (resolved_world w src q lost) = 3).
+    intros w pre src q B Hn Hd Ho Hnd Hg Hso Hle Hcase.
+    assert (Hn' : ncalls (resolved_world w src q) = 3).
     { unfold resolved_world, call, ncalls in *. cbn [w_log length]. lia. }
     split.
     - rewrite Hn'. unfold resolved_world, call. cbn [w_todo w_seq w_reps].
@@ -773,9 +751,9 @@ Section Run.
   Proof. intros w pre B Ho Hr Hn. split; [exact B|]. unfold PInv. cbn [w_ph set_ph]. repeat split; assumption. Qed.
 
   (* ---- the task that creates the stream makes a step *)
-  Lemma client_pinv : forall w pre, CInv1 w pre -> w_lost (client_step cf w) = false -> CInv1 (client_step cf w) pre.
+  Lemma client_pinv : forall w pre, CInv1 w pre -> CInv1 (client_step cf w) pre.
   Proof.
-    intros w pre (B & P) Hlost. unfold client_step in *. unfold PInv in P.
+    intros w pre (B & P). unfold client_step in *. unfold PInv in P.
     destruct (w_ph w) as [|c qr|c j qn fut|c src qn qr|st| |] eqn:Eph;
       try (split; [exact B|unfold PInv; rewrite Eph; exact P]).
     - (* PhStart *)
@@ -817,7 +795,7 @@ Section Run.
         * rewrite owner_poll_left.
           destruct (good_head _ _ _ Hg) as (old & new & Hbody & Hnew & Hnd & Hg').
           rewrite Hnew. cbn [apply_queued].
-          apply (resolved_inv w pre new qn' false B Hn Hd Ho Hnd Hg' (proj2 Hso)).
+          apply (resolved_inv w pre new qn' B Hn Hd Ho Hnd Hg' (proj2 Hso)).
           -- inversion Hle; assumption.
           -- left. split; [exact Hr|]. destruct Hq as [Hq|Hq]; [discriminate|]. rewrite Hq. f_equal.
              apply nend_cons. exact Hnew.
@@ -827,8 +805,8 @@ Section Run.
           assert (qb = [] /\ qa = []) as [-> ->] by (destruct qb; [split; [reflexivity|exact (eq_sym Hqn)]|discriminate]).
           cbn [nend fold_left] in Hown'.
           assert (Hndl : not_driver (lookup_result p) = true) by (rewrite <- Hown'; apply (b_nd _ _ _ _ _ B Hd)).
-          assert (G : CInv1 (resolved_world w (lookup_result p) [] false) pre).
-          { apply (resolved_inv w pre _ [] false B Hn Hd Ho Hndl); [constructor|exact I|constructor|].
+          assert (G : CInv1 (resolved_world w (lookup_result p) []) pre).
+          { apply (resolved_inv w pre _ [] B Hn Hd Ho Hndl); [constructor|exact I|constructor|].
             right. split; [exact Hr|exact Hown']. }
           destruct p; cbn [apply_queued];
             try (apply failed_pinv; [exact B|exact Ho|lia|rewrite Hd; cbn; lia]);
@@ -842,7 +820,7 @@ Section Run.
              { cbn [app] in Hqn. subst qa. inversion Ha as [|? ? Hx _]; subst. cbn in Hx. lia. }
              cbn [app] in Hqn. inversion Hqn; subst tb b qn'. clear Hqn.
              rewrite Hnew. cbn [apply_queued].
-             apply (resolved_inv w pre new (qb' ++ qa) false B Hn Hd Ho Hnd Hg' (proj2 Hso)).
+             apply (resolved_inv w pre new (qb' ++ qa) B Hn Hd Ho Hnd Hg' (proj2 Hso)).
              ++ inversion Hle; assumption.
              ++ right. split; [exact Hr|]. rewrite Hown', nend_app. f_equal.
                 destruct Hlk as [Hlk|Hlk]; [discriminate|]. rewrite Hlk. apply nend_cons. exact Hnew.
@@ -851,27 +829,13 @@ Section Run.
              destruct qb as [|[tb b] qb'].
              2: { cbn [app] in Hqn. inversion Hqn; subst. inversion Hb as [|? ? Hx _]; subst. cbn in Hx. lia. }
              cbn [app] in Hqn. subst qa.
-             assert (G : forall src0, src0 = lookup_result p ->
-                      w_lost (resolved_world w (fst (apply_queued (JA (ILeft a) ta) src0)) qn'
-                                             (snd (apply_queued (JA (ILeft a) ta) src0))) = false ->
-                      CInv1 (resolved_world w (fst (apply_queued (JA (ILeft a) ta) src0)) qn'
-                                            (snd (apply_queued (JA (ILeft a) ta) src0))) pre).
-             { intros src0 Hsrc Hl. cbn [apply_queued] in *. rewrite Hbody in *.
-               destruct new as [o|].
-               2: { unfold resolved_world, call in Hl. cbn [w_lost snd] in Hl.
-                    rewrite N.eqb_refl, orb_true_r in Hl. discriminate. }
-               rewrite N.eqb_refl. cbn [fst snd].
-               apply (resolved_inv w pre (Some o) qn' false B Hn Hd Ho Hnd Hg' (proj2 Hso)).
+             assert (G : forall src0, CInv1 (resolved_world w (apply_queued (JA (ILeft a) ta) src0) qn') pre).
+             { intro src0. cbn [apply_queued]. rewrite Hbody, N.eqb_refl.
+               apply (resolved_inv w pre new qn' B Hn Hd Ho Hnd Hg' (proj2 Hso)).
                - inversion Hle; assumption.
                - right. split; [exact Hr|]. rewrite Hown'. apply nend_cons. exact Hnew. }
              destruct p;
-               try (apply failed_pinv; [exact B|exact Ho|lia|rewrite Hd; cbn; lia]).
-             ++ specialize (G (Some o) eq_refl).
-                destruct (apply_queued (JA (ILeft a) ta) (Some o)) as [s' l'] eqn:Eq. cbn [fst snd] in G.
-                apply G. exact Hlost.
-             ++ specialize (G None eq_refl).
-                destruct (apply_queued (JA (ILeft a) ta) None) as [s' l'] eqn:Eq. cbn [fst snd] in G.
-                apply G. exact Hlost.
+               try (apply failed_pinv; [exact B|exact Ho|lia|rewrite Hd; cbn; lia]); apply G.
     - (* PhAddS *)
       destruct P as (Ho & P).
       destruct dest_cases as [Hd|[u Hd]]; rewrite Hd in P.
@@ -914,8 +878,8 @@ Section Run.
              rewrite Ho; cbn [rev app]; symmetry; unfold spec_pre; apply spec_from_early; rewrite (b_len _ _ _ _ _ B); lia).
   Qed.
 
-  Lemma client_inv : forall w, WInv w -> w_lost (client_step cf w) = false -> WInv (client_step cf w).
-  Proof. intros w [pre H] Hl. exists pre. apply client_pinv; assumption. Qed.
+  Lemma client_inv : forall w, WInv w -> WInv (client_step cf w).
+  Proof. intros w [pre H]. exists pre. apply client_pinv; assumption. Qed.
 
   (* ---- the consumer polls the stream once *)
   Lemma poll_inv : forall w, WInv w -> WInv (consumer_poll w).
@@ -950,23 +914,18 @@ Section Run.
     exists []. split; [exact Base_init|]. unfold PInv. cbn. split; reflexivity.
   Qed.
 
-  Lemma step_inv : forall w a, WInv w -> w_lost (step cf w a) = false -> WInv (step cf w a).
+  Lemma step_inv : forall w a, WInv w -> WInv (step cf w a).
   Proof.
-    intros w a Hi Hl. destruct a; cbn [step] in *.
+    intros w a Hi. destruct a; cbn [step] in *.
     - destruct (tick cf w) as [w'|] eqn:E; [eapply tick_inv; eassumption|exact Hi].
     - apply client_inv; assumption.
     - apply poll_inv; assumption.
   Qed.
 
-  Lemma run_inv : forall sched w,
-    WInv w -> w_lost (fold_left (step cf) sched w) = false -> WInv (fold_left (step cf) sched w).
+  Lemma run_inv : forall sched w, WInv w -> WInv (fold_left (step cf) sched w).
   Proof.
-    induction sched as [|a sched IH]; intros w Hi Hl; [exact Hi|].
-    cbn [fold_left] in *. apply IH; [|exact Hl]. apply step_inv; [exact Hi|].
-    destruct (w_lost (step cf w a)) eqn:E; [|reflexivity].
-    assert (G : forall l x, w_lost x = true -> w_lost (fold_left (step cf) l x) = true).
-    { induction l as [|b l IHl]; intros x Hx; [exact Hx|]. cbn [fold_left]. apply IHl. apply lost_mono. exact Hx. }
-    rewrite (G _ _ E) in Hl. discriminate.
+    induction sched as [|a sched IH]; intros w Hi; [exact Hi|].
+    cbn [fold_left] in *. apply IH. apply step_inv. exact Hi.
   Qed.
 
   (* ---- what the invariant says about the yielded items *)
@@ -1011,23 +970,29 @@ Section Run.
 End Run.
 
 (* ---------------------------------------------------------------- the theorems *)
-Theorem owner_partial : forall cf h sched,
-  bus_history cf h = true -> ~ Known_C32 cf h sched ->
+Lemma bus_history_parts : forall cf h, bus_history cf h = true ->
+  stamped h = true /\ existsb (driver_claim_off_path cf) h = false /\
+  (c_dest cf = DWell -> owners_ok_from 0 h = true) /\ (c_dest cf = DWell -> consistent_from 0 None h = true).
+Proof.
+  intros cf h Hb. unfold bus_history in Hb. apply andb_true_iff in Hb. destruct Hb as [Hb Hd].
+  apply andb_true_iff in Hb. destruct Hb as [Hst Hdc]. apply negb_true_iff in Hdc.
+  split; [exact Hst|]. split; [exact Hdc|].
+  split; intro E; rewrite E in Hd; apply andb_true_iff in Hd; tauto.
+Qed.
+
+Lemma run_winv : forall cf h sched, bus_history cf h = true -> WInv cf h (run cf h sched).
+Proof.
+  intros cf h sched Hb. destruct (bus_history_parts cf h Hb) as (Hst & Hdc & Hown & Hcon).
+  apply (run_inv cf h Hst Hdc Hown Hcon). apply init_inv; assumption.
+Qed.
+
+Theorem owner_full : forall cf h sched,
+  bus_history cf h = true ->
   let w := run cf h sched in
   (exists rest, spec_yield cf (w_start w) h = yielded w ++ rest) /\
   (w_todo w = [] -> drained w -> yielded w = spec_yield cf (w_start w) h).
 Proof.
-  intros cf h sched Hb Hk w.
-  assert (Hl : w_lost w = false) by (destruct (w_lost w) eqn:E; [exfalso; apply Hk; left; exact E|reflexivity]).
-  assert (Hf : forgeable cf h = false) by (destruct (forgeable cf h) eqn:E; [exfalso; apply Hk; right; exact E|reflexivity]).
-  unfold bus_history in Hb. apply andb_true_iff in Hb. destruct Hb as [Hst Hb].
-  assert (Hown : c_dest cf = DWell -> owners_ok_from 0 h = true).
-  { intro Hd. rewrite Hd in Hb. apply andb_true_iff in Hb. tauto. }
-  assert (Hcon : c_dest cf = DWell -> consistent_from 0 None h = true).
-  { intro Hd. rewrite Hd in Hb. apply andb_true_iff in Hb. tauto. }
-  assert (Hi : WInv cf h w).
-  { apply (run_inv cf h Hst Hf Hown Hcon); [apply init_inv; assumption|exact Hl]. }
-  split.
+  intros cf h sched Hb w. pose proof (run_winv cf h sched Hb) as Hi. split.
   - exact (inv_prefix cf h w Hi).
   - intros Ht Hd. exact (inv_complete cf h w Hi Ht Hd).
 Qed.
@@ -1035,22 +1000,13 @@ Qed.
 (* whenever the consumer polls a stream that has something for it, it gets the next item the specification
    lists: a poll that comes back empty-handed means everything received so far has been yielded *)
 Theorem poll_pending_complete : forall cf h sched,
-  bus_history cf h = true -> ~ Known_C32 cf h sched ->
+  bus_history cf h = true ->
   let w := run cf h sched in
   drained w ->
   yielded w = spec_yield cf (w_start w) (firstn (N.to_nat (w_seq w)) h).
 Proof.
-  intros cf h sched Hb Hk w Hdr.
-  assert (Hl : w_lost w = false) by (destruct (w_lost w) eqn:E; [exfalso; apply Hk; left; exact E|reflexivity]).
-  assert (Hf : forgeable cf h = false) by (destruct (forgeable cf h) eqn:E; [exfalso; apply Hk; right; exact E|reflexivity]).
-  unfold bus_history in Hb. apply andb_true_iff in Hb. destruct Hb as [Hst Hb].
-  assert (Hown : c_dest cf = DWell -> owners_ok_from 0 h = true).
-  { intro Hd. rewrite Hd in Hb. apply andb_true_iff in Hb. tauto. }
-  assert (Hcon : c_dest cf = DWell -> consistent_from 0 None h = true).
-  { intro Hd. rewrite Hd in Hb. apply andb_true_iff in Hb. tauto. }
-  assert (Hi : WInv cf h w).
-  { apply (run_inv cf h Hst Hf Hown Hcon); [apply init_inv; assumption|exact Hl]. }
-  destruct Hi as (pre & B & P). unfold drained in Hdr. unfold PInv in P. unfold yielded.
+  intros cf h sched Hb w Hdr. destruct (run_winv cf h sched Hb) as (pre & B & P). fold w in B, P.
+  unfold drained in Hdr. unfold PInv in P. unfold yielded.
   destruct (w_ph w) as [| | | |st| |]; try contradiction.
   destruct P as (_ & _ & (Hwf & Hso & _) & _ & _ & Hy & _). destruct Hdr as [st' Hp].
   destruct (ss_poll_spec (ss_fuel st) st None Hwf Hso (ss_fuel_ok st)) as (r & st2 & Ep & _ & Hps & _).
@@ -1062,19 +1018,8 @@ Proof.
 Qed.
 
 (* `.expect("`NameOwnerChanged` signal has no args")` in SignalStream::new is never reached *)
-Theorem never_panics : forall cf h sched,
-  bus_history cf h = true -> ~ Known_C32 cf h sched -> w_ph (run cf h sched) <> PhPanic.
+Theorem never_panics : forall cf h sched, bus_history cf h = true -> w_ph (run cf h sched) <> PhPanic.
 Proof.
-  intros cf h sched Hb Hk.
-  assert (Hl : w_lost (run cf h sched) = false)
-    by (destruct (w_lost (run cf h sched)) eqn:E; [exfalso; apply Hk; left; exact E|reflexivity]).
-  assert (Hf : forgeable cf h = false) by (destruct (forgeable cf h) eqn:E; [exfalso; apply Hk; right; exact E|reflexivity]).
-  unfold bus_history in Hb. apply andb_true_iff in Hb. destruct Hb as [Hst Hb].
-  assert (Hown : c_dest cf = DWell -> owners_ok_from 0 h = true).
-  { intro Hd. rewrite Hd in Hb. apply andb_true_iff in Hb. tauto. }
-  assert (Hcon : c_dest cf = DWell -> consistent_from 0 None h = true).
-  { intro Hd. rewrite Hd in Hb. apply andb_true_iff in Hb. tauto. }
-  assert (Hi : WInv cf h (run cf h sched)).
-  { apply (run_inv cf h Hst Hf Hown Hcon); [apply init_inv; assumption|exact Hl]. }
-  destruct Hi as (pre & _ & P). unfold PInv in P. intro E. rewrite E in P. exact P.
+  intros cf h sched Hb. destruct (run_winv cf h sched Hb) as (pre & _ & P).
+  unfold PInv in P. intro E. rewrite E in P. exact P.
 Qed.
